@@ -430,6 +430,9 @@ def check_ancillaries(rec, rng, cid):
                 anc[k] = np.nan if r < .35 else float(
                     rng.uniform(1, 80) if k == "alpha"
                     else 10 ** rng.uniform(1, 5))
+                if .35 <= r < .5:
+                    # zero is a value like any other (within the bounds)
+                    anc[k] = 0.0
             hmodels.ANC_RETURN.clear()
             hmodels.ANC_RETURN.update(anc)
             case = {"id": cid, "kind": "ancillaries", "anc": anc}
